@@ -129,6 +129,17 @@ def gen_func_code(f, lab):
                ("ref", bad), "JUMPI", "STOP", ("label", bad)] + _panic(1)
     elif k == "assert_state":           # if (slot == a) Panic(1)
         it += [("push", s), "SLOAD", ("push", a), "EQ", ("ref", bad), "JUMPI", "STOP", ("label", bad)] + _panic(1)
+    elif k == "assert_stages":
+        # if (slot == a) assert(block.timestamp != 0)  [or: >= 1];  if (slot == c) assert(false)
+        # the first assertion can never fail (setUp runs at timestamp 1, timestamps do not decrease), but the
+        # constraint `timestamp >= previous timestamp` is not a constraint on the state: while the target
+        # transaction is explored the failing branch looks feasible and is refuted only by the full query
+        it += [("push", s), "SLOAD", ("push", a), "EQ", ("ref", lab + "_ts"), "JUMPI"]
+        if "c" in f:
+            it += [("push", s), "SLOAD", ("push", f["c"]), "EQ", ("ref", bad), "JUMPI"]
+        it += ["STOP", ("label", lab + "_ts")]
+        it += (["TIMESTAMP"] if f.get("imp", "ts_nonzero") == "ts_nonzero" else [("push", 1), "TIMESTAMP", "LT", "ISZERO"])
+        it += [("ref", ok), "JUMPI"] + _panic(1) + [("label", ok), "STOP", ("label", bad)] + _panic(1)
     elif k == "roll":                   # vm.roll(K)  -- no storage change
         it += _cheat("roll(uint256)", [("push", K)], lab) + ["STOP"]
     elif k == "roll_arg":               # vm.roll(arg)
@@ -262,6 +273,11 @@ def build_case(case):
     """-> dict(t_rt, t_cr, targets=[(name, rt, cr, funcs)], t_funcs(abi list), blobs)"""
     targets = []
     for t in case["targets"]:
+        if "same_as" in t:
+            # a further INSTANCE of an earlier target's contract: the same artifact deployed once more
+            # (filters for selectors / contracts / senders are per address, the artifact is per contract)
+            targets.append(targets[t["same_as"]])
+            continue
         rt, funcs = build_target(t)
         targets.append((t["name"], rt, asm.creation_code(rt), funcs))
     filters = case.get("filters") or {}
@@ -397,7 +413,10 @@ def run_halmos(case, timeout=120, extra=(), instrument=False):
         shutil.rmtree(root, ignore_errors=True)
 
 
-STATUS_RE = re.compile(r"^\[(PASS|FAIL|ERROR|TIMEOUT)\]\s+(\S+)\s*(?:\(paths: (\d+))?", re.M)
+# (not anchored at the line start: the probe handler prints "Assertion failure detected in ..." from a solver thread,
+#  which may land in front of the status line of the running test)
+STATUS_RE = re.compile(r"\[(PASS|FAIL|ERROR|TIMEOUT)\]\s+(\S+)\s*(?:\(paths: (\d+))?")
+PROBE_RE = re.compile(r"Assertion failure detected in (\S+?\))")
 
 
 def parse_output(stdout):
@@ -415,8 +434,15 @@ def parse_output(stdout):
         ln = lines[i]
         if ln.startswith("Counterexample:") or ln.startswith("Counterexample (potentially invalid):"):
             probe = None
-            if i > 0 and lines[i - 1].startswith("Assertion failure detected in"):
-                probe = lines[i - 1].split(" in ", 1)[1].strip()
+            for back in (1, 2, 3):  # the announcement is printed by a solver thread: other output may land behind it
+                if i - back < 0:
+                    break
+                mm = PROBE_RE.search(lines[i - back]) if i - back >= 0 else None
+                if mm:
+                    probe = mm.group(1)
+                    break
+                if lines[i - back].strip() and not STATUS_RE.search(lines[i - back]) and not lines[i - back].startswith("Symbolic test result"):
+                    break
             model = {}
             txt = ln.split(":", 1)[1]
             j = i + 1
